@@ -735,14 +735,19 @@ func (d MarchingCanvas) MarchOnAttribute(attribute string, cutoff float64) model
 				// attribute to scale or weld
 				return marched
 			}
+			// Weld the block meshes while the vertices are still in canvas (cell)
+			// units, with the precision LookupOrAdd uses inside a block. Welding
+			// after scaling to world units (to 3 decimals) merged distinct
+			// vertices of neighbouring edges as soon as a cell was not much
+			// larger than 0.001 units, which pinched the surface.
 			return marched.
+				WeldByFloat3Attribute(attribute, 4).
 				Transform(
 					meshops.ScaleAttribute3DTransformer{
 						Attribute: attribute,
 						Amount:    vector3.One[float64]().DivByConstant(d.cubesPerUnit),
 					},
-				).
-				WeldByFloat3Attribute(attribute, 3)
+				)
 		}
 	}
 	panic(fmt.Errorf("canvas did not contain Float1 attribute %s", attribute))
@@ -759,14 +764,19 @@ func (d MarchingCanvas) MarchOnAttributeParallel(attribute string, cutoff float6
 			if marched.PrimitiveCount() == 0 {
 				return marched
 			}
+			// Weld the block meshes while the vertices are still in canvas (cell)
+			// units, with the precision LookupOrAdd uses inside a block. Welding
+			// after scaling to world units (to 3 decimals) merged distinct
+			// vertices of neighbouring edges as soon as a cell was not much
+			// larger than 0.001 units, which pinched the surface.
 			return marched.
+				WeldByFloat3Attribute(attribute, 4).
 				Transform(
 					meshops.ScaleAttribute3DTransformer{
 						Attribute: attribute,
 						Amount:    vector3.One[float64]().DivByConstant(d.cubesPerUnit),
 					},
-				).
-				WeldByFloat3Attribute(attribute, 3)
+				)
 		}
 	}
 	panic(fmt.Errorf("canvas did not contain Float1 attribute %s", attribute))
